@@ -7,6 +7,7 @@ use super::draw;
 use crate::config::Config;
 use crate::delta::{DiffType, Source, State, StateMachine};
 use crate::paint::Painter;
+use crate::style::DecorationStyle;
 use crate::{features, utils};
 
 // https://git-scm.com/docs/git-config#Documentation/git-config.txt-diffmnemonicPrefix
@@ -136,7 +137,7 @@ impl StateMachine<'_> {
         self.painter.paint_buffered_minus_and_plus_lines();
         if self.should_write_generic_diff_header_header_line()? {
             handled_line = true;
-        } else if self.should_handle()
+        } else if self.should_handle_file_header()
             && self.handled_diff_header_header_line_file_pair != self.current_file_pair
         {
             self.painter.emit()?;
@@ -182,7 +183,7 @@ impl StateMachine<'_> {
         }
 
         if self.should_write_generic_diff_header_header_line()?
-            || (self.should_handle()
+            || (self.should_handle_file_header()
                 && self.handled_diff_header_header_line_file_pair != self.current_file_pair)
         {
             handled_line = true;
@@ -208,6 +209,14 @@ impl StateMachine<'_> {
             &mut self.mode_info,
             self.config,
         )
+    }
+
+    /// Like `should_handle()`, but always about the file header: for `diff -u` input the
+    /// functions deciding whether to emit it are also reached while `self.state` is a hunk
+    /// (or any other) state, whose style says nothing about the file header.
+    fn should_handle_file_header(&self) -> bool {
+        let style = &self.config.file_style;
+        !(style.is_raw && style.decoration_style == DecorationStyle::NoDecoration)
     }
 
     #[inline]
@@ -254,7 +263,7 @@ impl StateMachine<'_> {
                 self.config,
             )
         } else if !self.config.color_only
-            && self.should_handle()
+            && self.should_handle_file_header()
             && self.handled_diff_header_header_line_file_pair != self.current_file_pair
         {
             self._handle_diff_header_header_line(self.source == Source::DiffUnified)?;
